@@ -35,7 +35,7 @@ def name_of(spec):
     if op in ('shape', 'broadcastable'):
         return f"{op}{tuple(spec['shape'])}{'L' if spec.get('as_list') else ''}"
     if op == 'user':
-        return f"user:{spec['fn']}"
+        return f"user:{spec['fn']}" + (f"@{spec['label']}" if spec.get('label') else '')
     return op
 
 
@@ -70,7 +70,7 @@ def build_cond(spec):
     if op == 'broadcastable':
         return A.broadcastable(list(spec['shape']) if spec.get('as_list') else tuple(spec['shape']))
     if op == 'user':
-        return A.Condition(USER_FNS[spec['fn']], name=spec['fn'] if spec.get('named', True) else None)
+        return A.Condition(USER_FNS[spec['fn']], name=spec.get('label') or (spec['fn'] if spec.get('named', True) else None))
     if op == 'and':
         c = build_cond(spec['kids'][0])
         for k in spec['kids'][1:]:
